@@ -26,6 +26,8 @@ type consCfg struct {
 	MaxProcMs      int     `json:"maxProcMs"`
 	ChanBuf        int     `json:"chanBuf"`
 	Leaders        []int32 `json:"leaders"`
+	Followers      []int32 `json:"followers"` // per partition: broker index of a read replica (0 none); needs rack
+	Rack           string  `json:"rack"`      // Config.RackID (follower fetching, Kafka >= 2.3)
 	NBrokers       int     `json:"nbrokers"`
 	MaxWaitMs      int     `json:"maxWaitMs"`
 	Interceptors   int     `json:"interceptors"`
@@ -213,6 +215,11 @@ func runConsumerScenario(t testing.TB, rec *vRec, sc *consScenario) {
 		c.SetIDBase(0)
 	}
 	c.abortedReverse = cf.AbortedReverse
+	for p, f := range cf.Followers {
+		if pt := c.parts[int32(p)]; pt != nil {
+			pt.follower = f
+		}
+	}
 	for k, bs := range sc.Logs {
 		var p int
 		fmt.Sscanf(k, "%d", &p)
@@ -227,6 +234,7 @@ func runConsumerScenario(t testing.TB, rec *vRec, sc *consScenario) {
 
 	config := NewConfig()
 	config.ClientID = c.clientID
+	config.RackID = cf.Rack
 	v, err := ParseKafkaVersion(cf.Version)
 	if err != nil {
 		t.Fatalf("bad version %q", cf.Version)
